@@ -123,6 +123,10 @@ func checkC07(c *Check) {
 
 	// Rule 2: spacing preserved
 	spacingRule(c)
+	// Rule 3: the record reaching the callback is the record as written
+	// (framing loop of the pipe ingester; rules of C12)
+	nr := importRules(c, "C12", checkC12, "record-as-written: ", "once-verbatim-in-order", "framing-primitive", "reader-outlives-loop")
+	c.Floor("imported record-as-written obligations", 5, nr)
 }
 
 func sinkKey(h TaintHit) string {
